@@ -8,8 +8,8 @@
    applies back-pressure (bodies < 32 KiB, `PayloadStatus::Pause` unreachable); `write_buf` stays
    below `h1_write_buffer_size` (no `DrainWriteBuf`); a write either takes everything or blocks;
    `poll_flush` of the socket is always ready; Expect/upgrade are not modelled. *)
-From AV Require Import Lib.Base H1.ConnRec.
-From AV Require Gen.Consts.
+Require Import AV.Lib.Base AV.H1.ConnRec.
+Require Import AV.Gen.Consts.
 
 Definition TICK : N := AV.Gen.Consts.DATE_SERVICE_TICK_MS.
 Definition MAXP : N := AV.Gen.Consts.H1_MAX_PIPELINED_MESSAGES.
@@ -104,7 +104,9 @@ Definition complete_flags (c : cfg) (cu : bool) (s : st) : st :=
 (* dispatcher.rs:459-507 send_response / 509-557 send_error_response (identical up to the state
    they install; error responses here always have an empty body) *)
 Definition send_response (c : cfg) (who : option req) (status : N) (ropt : copt) (blen bp : N) (s : st) : st :=
-  let cu := close_unread s in
+  (* repair F12: as at the end-of-body site, an unread payload is attributed to the response being
+     sent only when no later request has been queued (otherwise it is that later request's body) *)
+  let cu := close_unread s && (if fx_ctx (fx c) then is_nil (messages s) else true) in
   let ropt' := if draining s || cu then OClose else ropt in
   let s := encode_head who status ropt' blen s in
   if blen =? 0 then complete_flags c cu (set_dstate SNone s)
@@ -214,10 +216,17 @@ Fixpoint decode_loop (fuel : nat) (c : cfg) (s : st) (upd : bool) : st * bool :=
                             (set_payload (Some (rq_id r))
                                (set_chans ((rq_id r, mkChan 0 false false false) :: chans s) s))
                      else set_drainable false s in
-            let s := if is_none (dstate s) then handle_request c r s
-                     else set_messages (messages s ++ [MItem r]) s in
-            decode_loop f c s true
-        | IPart => (s, upd)                                     (* Ok(None): head incomplete *)
+            if is_none (dstate s) then
+              let s := handle_request c r s in
+              (* repair F15: stop decoding once the response just sent has ended the read side *)
+              if fx_close (fx c) && (read_disc s || linger s || shutdown s) then (s, true)
+              else decode_loop f c s true
+            else decode_loop f c (set_messages (messages s ++ [MItem r]) s) true
+        | IPart =>
+            match rest with
+            | [] => (s, upd)                                    (* Ok(None): head incomplete *)
+            | _ :: _ => decode_loop f c (set_rbuf rest s) upd   (* the rest of the head has arrived *)
+            end
         | IBad => (parse_error (set_rbuf rest s), upd)
         | IData _ | IEnd =>
             (* body bytes met where a request head is expected: they would be parsed as a request *)
@@ -304,12 +313,12 @@ Definition poll_graceful (sig : bool) (s : st) : st :=
 Definition arm (to : N) (s : st) : timer := TActive (cached (now s) + to).
 
 (* dispatcher.rs:1031-1053; repair F14: the timer is cleared when it fires and a connection that
-   is already shutting down gets no 408 *)
+   is already shutting down, or whose read side is closed (error response queued), gets no 408 *)
 Definition poll_head_timer (c : cfg) (s : st) : st :=
   if t_ready (head_t s) (now s) then
     if fx_sd (fx c) then
       let s := set_head_t TInactive s in
-      if shutdown s then s else set_shutdown true (send_response c None 408 ONone 0 0 s)
+      if shutdown s || read_disc s then s else set_shutdown true (send_response c None 408 ONone 0 0 s)
     else set_shutdown true (send_response c None 408 ONone 0 0 s)
   else s.
 
@@ -318,7 +327,9 @@ Definition poll_head_timer (c : cfg) (s : st) : st :=
 Definition poll_ka_timer (c : cfg) (s : st) : st :=
   if t_ready (ka_tm s) (now s) then
     let s := set_shutdown true s in
-    let s := if disc_to c =? 0 then set_write_disc true s else set_sd_t (arm (disc_to c) s) s in
+    let s := if disc_to c =? 0 then set_write_disc true s
+             else if fx_sd (fx c) && t_active (sd_t s) then s   (* repair F14: keep the earlier deadline *)
+             else set_sd_t (arm (disc_to c) s) s in
     if fx_sd (fx c) then set_ka_tm TInactive s else s
   else s.
 
@@ -449,3 +460,35 @@ Definition init (c : cfg) (hs : list (list hact)) : st :=
 
 Fixpoint run_polls (c : cfg) (rs : list round) (s : st) : st :=
   match rs with [] => s | r :: rest => run_polls c rest (poll c r s) end.
+
+(* ---- the same code regions as events, for statements over ARBITRARY event sequences. Guards are
+   the conditions under which `Dispatcher::poll` reaches the region (the response phase and the
+   epilogue are left unguarded: an over-approximation). [poll] is a particular composition of
+   these steps (ConnProofs.poll_by_steps). ---- *)
+Inductive ev :=
+| EEnv (r : round)
+| EGraceful (sig : bool)
+| EHeadTimer | EKaTimer | ESdTimer
+| ELinger (wblock : bool)
+| EShutdownIo (wblock sdpend : bool)
+| EReadPhase
+| EResponsePhase (wblock : bool)
+| EEpilogue.
+
+Definition step (c : cfg) (e : ev) (s : st) : st :=
+  if negb (res s =? 0) then s
+  else match e with
+       | EEnv r => env_step r s
+       | EGraceful sig => poll_graceful sig s
+       | EHeadTimer => poll_head_timer c s
+       | EKaTimer => poll_ka_timer c s
+       | ESdTimer => poll_sd_timer s
+       | ELinger wb => if linger s then poll_linger c wb s else s
+       | EShutdownIo wb sp => if negb (linger s) && shutdown s then shutdown_io c wb sp s else s
+       | EReadPhase => if linger s || shutdown s then s else read_phase c s
+       | EResponsePhase wb => response_phase c wb s
+       | EEpilogue => fst (epilogue c s)
+       end.
+
+Fixpoint run_events (c : cfg) (es : list ev) (s : st) : st :=
+  match es with [] => s | e :: r => run_events c r (step c e s) end.
